@@ -50,6 +50,9 @@ def cases(tier, seed):
                               nt = 'float32'
                           yield {'k': 'logic', 'api': 'iterappend', 'start': start, 'atom': list(atom), 'kind': kind,
                                  'n': n, 'pos': pos, 'numtype': nt, 'bo': bo, 'indextype': gens.INDEXTYPES[idx % 7]}
+                          if n == nmax or pos == 0:
+                              yield {'k': 'logic', 'api': 'iterappend', 'start': start, 'atom': list(atom), 'kind': kind,
+                                     'n': n, 'pos': pos, 'numtype': nt, 'bo': bo, 'indextype': 'int64', 'inctx': True}
                   if kind != 'iterraises':
                       nt, bo = combos[idx % len(combos)]
                       idx += 1
@@ -164,16 +167,28 @@ def run_logic(case, env, res, d):
         items[pos] = bad_item(kind, dtype, atom)
     expected = model + items[:pos]
     raised = None
-    try:
+
+    def call():
         if case['api'] == 'append':
             ra.append(items[0])
         elif kind == 'iterraises':
             ra.iterappend(failing_iter(items, pos))
         else:
             ra.iterappend(iter(items))
+    try:
+        if case.get('inctx'):
+            # the same fault inside an open_arrays() context that has already seen a successful append
+            pre = good_item(dtype, atom, 2, 70)
+            expected = model + [pre] + items[:pos]
+            with ra.open_arrays():
+                ra.append(pre)
+                call()
+        else:
+            call()
     except Exception as e:
         raised = e
     res.count('mon.logic_faults')
+    res.dim('context', 'inside open_arrays after an append' if case.get('inctx') else 'plain')
     res.count('mon.failure_oracle')
     for symptom, msg in oracle(D, path, ra, expected, type(raised).__name__ if raised else None):
         res.fail(f'logic:{kind}:{symptom}:{"first" if pos == 0 else "later"}-item',
